@@ -14,10 +14,10 @@ cargo test --offline 2>&1 | grep -E "^test result|FAILED|panicked" | head -12
 echo "## cargo test --offline --features rayon,serde with the change"
 cargo test --offline --features rayon,serde 2>&1 | grep -E "^test result|FAILED|panicked" | head -12
 echo "## demo WITH the change"
-(cd seed/demo && cargo run --offline 2>&1 | tail -4; cargo run --offline --release 2>&1 | tail -3)
+(cd seed/demo && timeout 300 cargo run --offline 2>&1 | tail -4; timeout 300 cargo run --offline --release 2>&1 | tail -3)
 git apply -R seed/patch.diff
 echo "## demo WITHOUT the change"
-(cd seed/demo && cargo run --offline 2>&1 | tail -4; cargo run --offline --release 2>&1 | tail -3)
+(cd seed/demo && timeout 300 cargo run --offline 2>&1 | tail -4; timeout 300 cargo run --offline --release 2>&1 | tail -3)
 git apply seed/patch.diff
 } > $OUT/confirm.log 2>&1
 cp seed/patch.diff $OUT/patch.diff
